@@ -159,7 +159,7 @@ for tag, T, tmin, tmax, use in INT_BINDS:
                               note='opl_parse_int<%s> (%s): any NUL-terminated string: no overflow, no read past the NUL, greedy, result within the type' % (T, use)))
     # bounded functional stand-in: value equals the decimal value of the digits
     IN = 21
-    PIPELINES.append(Pipeline('U6_opl_parse_int_%s_value_bounded' % tag, units=[u], prelude=GHOST, unwind=IN + 2, loop_contracts=False, solver='kissat', timeout=(1800 if tag == 'i64' else 600), tier=('thorough' if tag == 'i64' else 'quick'),
+    PIPELINES.append(Pipeline('U6_opl_parse_int_%s_value_bounded' % tag, units=[u], prelude=GHOST, unwind=IN + 2, loop_contracts=False, solver='kissat', timeout=(1800 if tag == 'i64' else 600), tier='thorough',
                               harness='''
 void harness(void) {
   char buf[%(N1)d]; size_t n; __CPROVER_assume(n <= %(N)d); buf[n] = 0; verif_exc = 0; ghost_n = n;
